@@ -10,28 +10,37 @@ correspondence: E-CONC — harness/c14.cpp runs the real IdAllocator<uint16_t|ui
                 every slot + call/ret events with ids and items) is replayed in lock-step by
                 lean/Drivers/C14.lean; the harness evaluates the ownership / single-taker / stale-id /
                 wrong-item / for_each / reuse oracles itself.  ThreadId runs are oracle only.
+                thorough tier: harness/c14_wrap.cpp replays the schedule of theorem ida_wrap_counterexample on
+                the real IdAllocator<uint16_t> (one allocate stalled before its CAS while id 0 is recycled
+                65536 times; control run with 65535) — DESIGN section 7 #7.
 """
 from vlib.core import *
 
 SRCS = ["harness/c14.cpp"]
+WRAP_SRCS = ["harness/c14_wrap.cpp"]
 REPO_CPP = ["babylon/concurrent/*.cpp"]
+LEAN_MODULES = ["Babylon.IdAlloc.Model", "Babylon.IdAlloc.Box", "Babylon.IdAlloc.Sched", "Babylon.IdAlloc.BoxSched",
+                "Babylon.IdAlloc.Lemmas", "Babylon.IdAlloc.LemmasUse", "Babylon.IdAlloc.BoxLemmas", "Babylon.Properties.C14"]
 
 
 def warm():
     build_vrt_exe("c14", SRCS, repo_cpp=REPO_CPP)
+    build_vrt_exe("c14wrap", WRAP_SRCS, repo_cpp=REPO_CPP)
 
 
 def run(ctx):
     ctx.cov["trusted_base"] += [
         "vrt/vrt.cpp (TSan-ABI interposition, deterministic scheduler, futex/mutex emulation) and the TSan-instrumented build (differs from production in the places listed in DESIGN 3.3)",
         "executions are sequentially consistent interleavings at atomic-operation granularity; memory orders are tied statically (generated skeleton obligations) and checked dynamically by trace equality, weak-memory reorderings are not simulated for this property",
-        "NoWrap: fewer than 2^W pushes complete while one allocate is between its head load and its CAS (hypothesis of the uniqueness theorem; necessary, see the counterexample theorem)",
+        "NoWrap: fewer than 2^W pushes complete while one allocate is between its head load and its CAS (hypothesis of ida_unique; necessary: theorem ida_wrap_counterexample for W=2, and the W=16 schedule is replayed on the real IdAllocator<uint16_t> in the thorough tier); for the deposit box: fewer than 2^32-1 slot recycles in total (hypothesis BGood of box_single_taker / box_stale_never_matches)",
+        "Cap: at most 2^W-2 ids are minted (ids stay below ACTIVE_FLAG / FREE_LIST_TAIL; the model's next_value is an unbounded natural number)",
     ]
+    ctx.assumptions += ["NoWrap (see trusted_base)", "Cap (see trusted_base)"]
     ctx.gen(["idalloc"])
     ctx.lake_build(["Babylon.Properties.C14"])
     ctx.audit("Babylon.Properties.C14")
     if not ctx.quick:
-        ctx.leanchecker(["Babylon.IdAlloc.Model", "Babylon.Properties.C14"])
+        ctx.leanchecker(LEAN_MODULES)
     drv = ctx.driver("drv_C14")
     exe, log = build_vrt_exe("c14", SRCS, repo_cpp=REPO_CPP)
     if exe is None:
@@ -76,6 +85,8 @@ def run(ctx):
                 samples.append(r["lines"][:60])
             if len(ctx.failing) + len(ctx.broken) > 8:
                 break
+    if not ctx.quick:
+        wrap_replay(ctx, dist)
     ctx.cov["distribution"] = dist
     ctx.cov["distinct_nontrivial"] = len(distinct)
     ctx.cov["traces_validated_against_impl"] = dist["replay_ok"]
@@ -88,8 +99,42 @@ def run(ctx):
     ctx.cov["samples"] = samples or [["<no sample>"]]
 
 
+def wrap_replay(ctx, dist):
+    """DESIGN section 7 #7: W=16 version wrap on the real IdAllocator<uint16_t> (directed schedule through
+    vrt_set_picker).  65535 recycles: the stalled CAS must fail and nothing breaks; 65536 recycles: if the real
+    code hands out id 1 twice this is a failing input of the property (outside the NoWrap hypothesis)."""
+    exe, log = build_vrt_exe("c14wrap", WRAP_SRCS, repo_cpp=REPO_CPP)
+    if exe is None:
+        ctx.broke("correspondence", "harness/c14_wrap.cpp does not build against /repo", log[-800:])
+        return
+    out = {}
+    for rec in (65535, 65536):
+        r = subprocess.run([str(exe), str(rec)], capture_output=True, text=True, timeout=600)
+        lines = r.stdout.splitlines()
+        ctx.cov["evaluations"] += 1
+        oracle = [l for l in lines if " ev ORACLE" in l]
+        stalled = any("B stalled before its CAS" in l for l in lines)
+        out[rec] = {"oracle": len(oracle), "stalled": stalled, "rc": r.returncode, "tail": lines[-14:]}
+        text = "mode=wrap16 recycles=%d\n%s" % (rec, "\n".join(lines[-40:]))
+        if r.returncode != 0 or not stalled or not any(l.strip() == "END" for l in lines):
+            ctx.broke("correspondence", "c14_wrap directed schedule did not run as intended (recycles=%d rc=%s)" % (rec, r.returncode), text + r.stderr[-400:])
+        elif oracle and rec == 65535:
+            ctx.failing_input("oracle:wrap16-control:dup", text)
+        elif oracle:
+            ctx.failing_input("oracle:wrap16:dup", text)
+    dist["wrap16"] = out
+    ctx.notes.append("wrap16 replay on the real IdAllocator<uint16_t>: 65535 recycles -> %d oracle failures, 65536 recycles -> %d" % (
+        out.get(65535, {}).get("oracle", -1), out.get(65536, {}).get("oracle", -1)))
+
+
 def replay(ctx, path):
     txt = Path(path).read_text()
+    mw = re.search(r"mode=wrap16 recycles=(\d+)", txt)
+    if mw:
+        exe, log = build_vrt_exe("c14wrap", WRAP_SRCS, repo_cpp=REPO_CPP)
+        r = subprocess.run([str(exe), mw.group(1)], capture_output=True, text=True, timeout=600)
+        print("\n".join(r.stdout.splitlines()[-40:]))
+        return 1 if " ev ORACLE" in r.stdout else 0
     m = re.search(r"mode=(\S+) seed=(\d+) env=(\{.*\})", txt)
     mode, seed, env = m.group(1), int(m.group(2)), eval(m.group(3))
     exe, log = build_vrt_exe("c14", SRCS, repo_cpp=REPO_CPP)
@@ -104,5 +149,5 @@ def replay(ctx, path):
 MANIFEST = {
     "technique": "Lean 4 proof (invariant over all interleavings of an atomic-granularity transition system) + translator-generated skeleton/order obligations + lock-step replay of real executions under a deterministic scheduler",
     "text": "Theorems in lean/Babylon/Properties/C14.lean hold for every interleaving, thread count and call history of the model; each model step is one atomic operation of the real code, and every trace of the real IdAllocator and of the real DepositBox produced under VRT is checked to be a path of the model (same operation, location, memory order, values)",
-    "note": "Trusted: Lean kernel + 3 standard axioms; gen/idalloc.py; vrt/ (scheduler, TSan-ABI build); SC interleavings only (orders tied statically); NoWrap hypothesis on the truncated version",
+    "note": "Trusted: Lean kernel + 3 standard axioms; gen/idalloc.py; vrt/ (scheduler, TSan-ABI build); SC interleavings only (orders tied statically); hypotheses NoWrap (necessary: ida_wrap_counterexample; the 16-bit wrap is reproduced on the real IdAllocator<uint16_t> in the thorough tier) and Cap",
 }
